@@ -1058,6 +1058,48 @@ leaf_with_locals!(leaf_cs_4, 4, |aux| unsafe { CS::set_reg(CS::get_reg()) });
 leaf_with_locals!(leaf_cs_8, 8, |aux| unsafe { CS::set_reg(CS::get_reg()) });
 leaf_with_locals!(leaf_cs_16, 16, |aux| unsafe { CS::set_reg(CS::get_reg()) });
 
+use crate::util::{pressure_expected, under_register_pressure};
+
+fn register_pressure(t: &mut T) {
+    macro_rules! case {
+        ($name:expr, $body:expr) => {{
+            t.rep.eval();
+            let seed = t.r.next() | 1;
+            let ((sum, _), _evs) = trapemu::trapped(|| under_register_pressure(seed, || $body));
+            if sum != pressure_expected(seed) {
+                t.rep.violation(&format!("{}|changes-a-register-it-does-not-declare", $name), J::obj(vec![("profile", J::s(crate::util::profile_name())), ("expected", J::hex(pressure_expected(seed))), ("got", J::hex(sum))]));
+            }
+            t.rep.class(&format!("register-pressure|{}", $name));
+        }};
+    }
+    let v = t.r.next();
+    case!("Cr0::read_raw", Cr0::read_raw());
+    case!("Cr2::read_raw", Cr2::read_raw());
+    case!("Cr3::read_raw", Cr3::read_raw());
+    case!("Cr4::read_raw", Cr4::read_raw());
+    case!("Cr0::write_raw", unsafe { Cr0::write_raw(v) });
+    case!("Cr4::write_raw", unsafe { Cr4::write_raw(v) });
+    case!("Dr0::read", Dr0::read());
+    case!("Dr6::read_raw", Dr6::read_raw());
+    case!("Dr7::read_raw", Dr7::read_raw());
+    case!("Dr3::write", Dr3::write(v));
+    case!("XCr0::read_raw", XCr0::read_raw());
+    case!("XCr0::write_raw", unsafe { XCr0::write_raw(v) });
+    case!("Msr::read", unsafe { Msr::new(v as u32).read() });
+    case!("Msr::write", unsafe { Msr::new(v as u32).write(v.rotate_left(17)) });
+    case!("Efer::read_raw", Efer::read_raw());
+    case!("LStar::read", LStar::read());
+    case!("Star::read_raw", Star::read_raw());
+    case!("CS::get_reg", CS::get_reg());
+    case!("SS::get_reg", SS::get_reg());
+    case!("GS::get_reg", GS::get_reg());
+    case!("DS::set_reg", unsafe { DS::set_reg(SegmentSelector(v as u16)) });
+    case!("CS::set_reg", unsafe { CS::set_reg(CS::get_reg()) });
+    case!("GS::swap", unsafe { GS::swap() });
+    case!("load_tss", unsafe { load_tss(SegmentSelector(v as u16)) });
+    case!("rflags::read_raw", rflags::read_raw());
+}
+
 fn callers_locals(t: &mut T) {
     let fns: [(&str, usize, fn(u64, u64) -> u64); 11] = [
         ("rflags::write_raw", 1, leaf_wr_1), ("rflags::write_raw", 2, leaf_wr_2), ("rflags::write_raw", 4, leaf_wr_4), ("rflags::write_raw", 9, leaf_wr_9),
@@ -1092,6 +1134,9 @@ pub fn run(a: &Args, rep: &mut Report) {
         seg_tests(&mut t);
         if i % 1024 == 0 {
             callers_locals(&mut t);
+        }
+        if i % 256 == 0 {
+            register_pressure(&mut t);
         }
         if i % 16 == 0 {
             flags_tests(&mut t);
